@@ -9,7 +9,8 @@ A property module provides
 import hashlib
 import importlib
 import json
-import multiprocessing
+import pickle
+import subprocess
 import os
 import random
 import sys
@@ -101,24 +102,49 @@ def _worker(a):
     return dict(stats=rep.stats, viols=rep.viols, samples=rep.samples, hashes=list(rep.hashes), infra=rep.infra)
 
 
+def worker_main(argv):
+    """entry of a worker process: python3 argh_driver.py <mod> <tier> <seed> <first> <count> <batch> <widx> <outfile>"""
+    modname, tier, seed, first, count, batch, widx, outfile = argv
+    res = _worker((modname, tier, int(seed), int(first), int(count), int(batch), int(widx)))
+    with open(outfile + ".tmp", "wb") as fh:
+        pickle.dump(res, fh)
+    os.replace(outfile + ".tmp", outfile)
+
+
 def run(mod, tier, seed):
     chk = vc.Check(mod.PROP, tier, seed, getattr(mod, "LEVEL", "exploration"))
     chk.coverage["rule"] = mod.RULE
     chk.assumptions = list(getattr(mod, "ASSUMPTIONS", []))
     try:
-        argh.interp_exe(getattr(mod, "FLAVOUR", "asan"))     # build once, before forking
+        argh.interp_exe(getattr(mod, "FLAVOUR", "asan"))     # build once; the workers find it in the cache
         total = mod.cases(tier)
         nw = min(vc.NCPU, max(1, total // 50))
         per = (total + nw - 1) // nw
         batch = getattr(mod, "BATCH", 100)
-        jobs = []
+        procs = []
         for w in range(nw):
             first = w * per
             cnt = min(per, total - first)
-            if cnt > 0:
-                jobs.append((mod.__name__, tier, seed, first, cnt, batch, w))
-        with multiprocessing.Pool(len(jobs)) as pool:
-            outs = pool.map(_worker, jobs)
+            if cnt <= 0:
+                continue
+            outfile = os.path.join(vc.scratch(), "w%d.pickle" % w)
+            cmd = [sys.executable, os.path.abspath(__file__), mod.__name__, tier, str(seed), str(first), str(cnt), str(batch), str(w), outfile]
+            procs.append((w, outfile, subprocess.Popen(cmd, stdout=subprocess.PIPE, stderr=subprocess.STDOUT)))
+        outs = []
+        limit = getattr(mod, "TIMEOUT", {"quick": 3600, "thorough": 6 * 3600})[tier]
+        t0 = time.time()
+        for w, outfile, p in procs:
+            try:
+                so, _ = p.communicate(timeout=max(10, limit - (time.time() - t0)))
+            except subprocess.TimeoutExpired:
+                p.kill()
+                so, _ = p.communicate()
+                chk.infra.append("worker %d exceeded the watchdog" % w)
+            try:
+                with open(outfile, "rb") as fh:
+                    outs.append(pickle.load(fh))
+            except (OSError, pickle.PickleError, EOFError):
+                chk.infra.append("worker %d produced no result (rc=%s): %s" % (w, p.returncode, (so or b"").decode("utf-8", "replace")[-800:]))
         hashes = set()
         for o in outs:
             chk.add_stats(o["stats"])
@@ -169,3 +195,8 @@ def replay(mod, path):
         return vc.EXIT_VIOLATION
     print("replay: case passed")
     return vc.EXIT_OK
+
+
+if __name__ == "__main__":
+    sys.path.insert(0, os.path.join(vc.VERIF, "lib", "props"))
+    worker_main(sys.argv[1:])
